@@ -20,6 +20,7 @@ type c12Scen struct {
 	Entry      string      `json:"entry"`
 	Trace      bool        `json:"trace"`
 	Reentrant  bool        `json:"reentrant_filter"`
+	Recover    bool        `json:"recover"`
 	Rendezvous bool        `json:"first_request_of_client0_waits_for_first_of_client1"`
 	Preempt    int         `json:"preempt_permille"`
 	Svcs       []SvcSpec   `json:"services"` // Routes = initial routes followed by pool routes
@@ -53,6 +54,7 @@ func genC12(x *Ctx) *c12Scen {
 	sc.Trace = tp.Bool()
 	sc.Preempt = []int{300, 100, 500, 50}[tp.G(4)]
 	sc.Reentrant = tp.Chance(350)
+	sc.Recover = tp.Bool()
 	sc.Rendezvous = tp.Chance(200)
 	rootPerm := tp.Perm(len(c12Roots))
 	rid := 0
@@ -161,6 +163,7 @@ func genC12(x *Ctx) *c12Scen {
 			if tp.Chance(120) {
 				p.Path = []string{"/static/f", "/h"}[tp.G(2)]
 			}
+			p.Boom = tp.Chance(70)
 			ps = append(ps, p)
 		})
 		sc.Clients = append(sc.Clients, ps)
@@ -175,7 +178,7 @@ func runC12(x *Ctx) {
 	s := x.Sim
 	s.Preempt = sc.Preempt
 
-	w := &World{Svcs: sc.Svcs, Router: sc.Router, Reentrant: sc.Reentrant}
+	w := &World{Svcs: sc.Svcs, Router: sc.Router, Reentrant: sc.Reentrant, Recover: sc.Recover}
 	for i, pat := range c12Plain {
 		w.Plains = append(w.Plains, PlainSpec{ID: i, Pattern: pat, WithFilter: i%2 == 1})
 	}
